@@ -379,7 +379,7 @@ func (ss *SortedSet) searchReverse(nodes []*SortedSetNode, excludeStart, exclude
 		}
 	}
 
-	for x != nil && limit > 0 {
+	for x != nil && x != ss.header && limit > 0 {
 		if excludeStart {
 			if x.score <= start {
 				break
